@@ -37,7 +37,7 @@ type Lemma struct {
 	Fuel    int
 	Induct  string // variable to do induction over (optional)
 	File    string
-	Use     bool    // once proved, available to function VCs as a quantified fact
+	Use     bool // once proved, available to function VCs as a quantified fact
 	Trigger *Expr
 }
 
